@@ -694,4 +694,14 @@ def readSaveInfo : Rd SaveInfo := do
   let g ← readList readString
   pure { totalAssignments := t, polyaAssignments := p, readGroups := g }
 
+/-- the `_info` file as `collect_reads` writes it since fix cc73ffc: the three fields `load_read_info` reads, then
+    `alignment_stat_counter.stats_dict[AlignmentType.unaligned]` (readers of the older format stop before it) -/
+def writeInfoFile (i : SaveInfo) (unaligned : Int) : Option Bytes := seqW [writeSaveInfo i, writeInt unaligned]
+
+/-- `load_unaligned_reads`: skips the three fields, then `read_int` (0 at the end of an older file: `inf.read`
+    returns `b""` and `int.from_bytes(b"")` is 0) -/
+def readUnaligned : Rd Int := do
+  let _ ← readSaveInfo
+  readInt
+
 end IsoVerif.Model.Serial
